@@ -66,13 +66,32 @@ class P:
             return rng.choice([0, 1, MAXV[f], MAXV[f] - 1, MAXV[f] // 2 + 1])
         return rng.randint(0, MAXV[f])
 
-    def packet(self, rng, count, version=5, nrec=None, distinct=False):
+    def addr_family(self, rng):
+        """a handful of addresses that collide pairwise under the usual multiplicative byte hashes (h = h*M + octet,
+        M = 31 / 33 / 37 / 131 / 257): (.., c, d) and (.., c+1, d-M); (.., b, c, ..) and (.., b+1, c-M, ..). A memo of rendered
+        addresses that is validated by such a hash confuses them within one datagram"""
+        fam = []
+        for _ in range(rng.choice([1, 2, 3])):
+            m = rng.choice([31, 33, 37, 131, 31, 31])
+            a, b = rng.randrange(256), rng.randrange(255)
+            c, d = rng.randrange(m, 255) if m < 255 else 255, rng.randrange(m, 256) if m < 256 else 255
+            if rng.random() < 0.6:
+                c0 = rng.randrange(255)
+                fam += [bytes([a, b, c0, d]), bytes([a, b, c0 + 1, d - m])]
+            else:
+                fam += [bytes([a, b, c, d]), bytes([a, b + 1, c - m, d])]
+        return [int.from_bytes(x, "big") for x in fam]
+
+    def packet(self, rng, count, version=5, nrec=None, distinct=False, family=None):
         hv = [self.rand_val(rng, f) for _, f in HDR]
         hv[0], hv[1] = version, count
         p = struct.pack(HFMT, *hv)
         nrec = count if nrec is None else nrec
         for i in range(nrec):
-            if distinct:
+            if family:
+                vals = [self.rand_val(rng, f) for _, f in REC]
+                vals[0], vals[1], vals[2] = rng.choice(family), rng.choice(family), rng.choice(family)
+            elif distinct:
                 vals = [(17 + 31 * i + 7 * j) % (MAXV[f] + 1) for j, (_, f) in enumerate(REC)]
             else:
                 vals = [self.rand_val(rng, f) for _, f in REC]
@@ -84,7 +103,7 @@ class P:
         addr = rand_addr(rng)
         if k < 0.45:      # structured, well-formed, with/without trailing octets
             c = rng.randint(1, 30)
-            p = self.packet(rng, c, distinct=rng.random() < 0.3) + bytes(rng.randrange(256) for _ in range(rng.choice([0, 0, 1, 17, 47, 48, 49])))
+            p = self.packet(rng, c, distinct=rng.random() < 0.3, family=self.addr_family(rng) if rng.random() < 0.25 else None) + bytes(rng.randrange(256) for _ in range(rng.choice([0, 0, 1, 17, 47, 48, 49])))
         elif k < 0.6:     # count / version variants
             c = rng.choice([0, 31, 32, 255, 65535, 1, 30])
             v = rng.choice([5, 5, 4, 6, 9, 10, 0, 65535])
@@ -183,7 +202,7 @@ class P:
 
     def rule(self):
         return ("directed: every count 0..31 at the exact length with pairwise distinct field values; seeded: 45% well-formed "
-                "(1..30 flows, boundary and random field values, trailing octets), 15% version/count variants, 20% length "
+                "(1..30 flows, boundary and random field values, a quarter with all addresses of the datagram drawn from a family colliding under multiplicative byte hashes, trailing octets), 15% version/count variants, 20% length "
                 "variants around 24+48k, 12% truncations, 8% arbitrary octets; 4-byte, v4-mapped and IPv6 exporter addresses. "
                 "non-trivial = distinct case line whose model outcome has >= 1 flow, plus one representative per (outcome class, size bucket)")
 
